@@ -18,11 +18,12 @@ import types
 import z3
 
 from . import extract
+from .gf import GFLin, GFNonZero, GFLog
 from .sym import (SInt, SBool, Unsupported, ConcretizeError, fresh_int, fresh_bool, fresh_name,
                   s_and, s_or, s_not, s_ite, s_min, s_max, s_implies, zb, _z, mk_bool, is_sym,
                   range_constraints, same_value, _counter, reset_atoms, QForall)
 from .values import (CUR, VBytearray, VBytes, SSeq, SIter, SBits, SRepeat, Obj, TupObj,
-                     CountedList)
+                     CountedList, OpaqueSeq, OpaqueElem, OpaqueIter)
 
 PKG = 'segno'
 
@@ -242,6 +243,9 @@ class Interp:
         self.stats = dict(solver_checks=0, solver_s=0.0)
         self.qassumptions = []
         self.index_terms = []
+        self.gf_guard = None
+        self.gf_tables = None
+        self.gf_used_shifts = set()
 
     # ------------------------------------------------------------------ solver / path
     def _new_solver(self):
@@ -491,6 +495,18 @@ class Interp:
         self.failures.append(Failure(name, kind, 'refuted', witness, 'ground case',
                                      replay or getattr(self, 'replay_spec', None)))
         return False
+
+    def ground_pass(self, name, n, kind='lemma'):
+        """n ground instances of obligation `name` evaluated to true"""
+        if n <= 0:
+            return
+        name = self.prefix_tag + name
+        rec = self.records.get(name)
+        if rec is None:
+            rec = self.records[name] = ObRecord(name, kind)
+        rec.instances += n
+        rec.discharged += n
+        rec.trivial += n
 
     def model_values(self, model):
         out = {}
@@ -868,9 +884,29 @@ class Interp:
         return _CONTINUE
 
     def x_If(self, s, fr):
-        if self.truth(self.eval(s.test, fr)):
+        t = self.eval(s.test, fr)
+        if isinstance(t, GFNonZero):
+            return self.gf_guarded_if(s, fr, t)
+        if self.truth(t):
             return self.exec_block(s.body, fr)
         return self.exec_block(s.orelse, fr)
+
+    def gf_guarded_if(self, s, fr, t):
+        """`if x != 0: body` on a GF-linear form x: the body is executed once under the
+        guard; every store it performs must change a cell by a multiple of x, so that
+        for data with x == 0 the merged state coincides with skipping the body."""
+        if s.orelse:
+            raise Unsupported('guarded GF branch with else')
+        if getattr(self, 'gf_guard', None) is not None:
+            raise Unsupported('nested guarded GF branch')
+        self.gf_guard = t.form
+        try:
+            sig = self.exec_block(s.body, fr)
+        finally:
+            self.gf_guard = None
+        if sig is not None:
+            raise Unsupported('control transfer out of guarded GF branch')
+        return None
 
     def x_Assert(self, s, fr):
         if not self.truth(self.eval(s.test, fr)):
@@ -973,8 +1009,12 @@ class Interp:
         key = self.loop_key(fr, s)
         spec = self.loopspecs.get(key) if key else None
         if spec is not None:
+            if isinstance(itv, Obj):
+                itv = self.make_iter(itv)
             return self.cut_for(s, fr, itv, spec, key)
-        if isinstance(itv, (SRange, SSeq, SBits, SRepeat, CountedList)):
+        if isinstance(itv, Obj):
+            itv = self.make_iter(itv)
+        if isinstance(itv, (SRange, SSeq, SBits, SRepeat, CountedList, OpaqueSeq, OpaqueIter)):
             raise Unsupported('loop %r over symbolic-length iterable without invariant' % (key,))
         it = self.make_iter(itv)
         while True:
@@ -1000,6 +1040,10 @@ class Interp:
     def make_iter(self, v):
         if isinstance(v, SSeq):
             return SIter(v, 0)
+        if isinstance(v, OpaqueSeq):
+            return OpaqueIter(v)
+        if isinstance(v, OpaqueIter):
+            return v
         if isinstance(v, Obj):
             m = self.lookup_class_attr(v.cls, '__iter__')
             if m is None:
@@ -1007,6 +1051,8 @@ class Interp:
             return self.call_function(m, (v,), {})
         if isinstance(v, (SBits, SRepeat, SRange, CountedList)):
             raise Unsupported('iteration over symbolic-length value')
+        if hasattr(v, '__next__'):
+            return v
         try:
             return iter(v)
         except TypeError as te:
@@ -1057,7 +1103,7 @@ class Interp:
         if isinstance(itv, SRange):
             N = itv.count()
             elem = itv.at
-        elif isinstance(itv, SSeq):
+        elif isinstance(itv, (SSeq, OpaqueSeq, OpaqueIter)):
             N = itv.length
             elem = itv.at
         elif isinstance(itv, (list, tuple, VBytearray)):
@@ -1265,6 +1311,8 @@ class Interp:
             return self.call_function(m, (obj, idx), {})
         if isinstance(obj, TupObj):
             obj = obj.items
+        if isinstance(idx, (GFLin, GFLog)):
+            return self.gf_lookup(obj, idx)
         if isinstance(idx, SInt):
             if isinstance(obj, (SSeq, SBits, VBytearray)):
                 return obj[idx]
@@ -1285,6 +1333,25 @@ class Interp:
                 return self._sym_slice_concrete(obj, idx)
             raise Unsupported('symbolic slice of %s' % type(obj).__name__)
         return obj[idx]
+
+    def gf_lookup(self, obj, idx):
+        tabs = getattr(self, 'gf_tables', None)
+        if not tabs:
+            raise Unsupported('GF table lookup without registered tables')
+        if isinstance(idx, GFLin):
+            if obj is not tabs['log']:
+                raise Unsupported('GF linear form used as index of an unknown table')
+            g = getattr(self, 'gf_guard', None)
+            if g is None or not (g == idx):
+                raise Unsupported('LOG[x] outside the branch guarded by x != 0')
+            return GFLog(idx, 0)
+        if obj is not tabs['exp']:
+            raise Unsupported('LOG value used as index of an unknown table')
+        self.gf_used_shifts.add(idx.add)
+        from spec import gf as F
+        if not 0 <= idx.add < 255:
+            raise Unsupported('EXP[LOG[x] + g] with g outside 0..254')
+        return idx.form.scale(F.alpha_pow(idx.add))
 
     def _sym_slice_concrete(self, obj, idx):
         """slice with symbolic bounds of a concrete-length sequence: fork on the bounds"""
@@ -1317,6 +1384,15 @@ class Interp:
         if isinstance(obj, (tuple, TupObj, bytes, str, SSeq)):
             raise PyRaise(TypeError('object does not support item assignment'))
         self.note_mutation(obj)
+        g = getattr(self, 'gf_guard', None)
+        if g is not None:
+            if not isinstance(obj, VBytearray) or isinstance(idx, slice):
+                raise Unsupported('store other than a byte cell under a GF guard')
+            old = obj.items[idx]
+            delta = v ^ old
+            if not (isinstance(delta, int) and delta == 0):
+                if not isinstance(delta, GFLin) or delta.proportional_factor(g) is None:
+                    raise Unsupported('store under GF guard is not a multiple of the guard')
         if isinstance(obj, bytearray) and is_sym(v):
             raise Unsupported('symbolic store into native bytearray')
         if isinstance(idx, (SInt, SBool)) and isinstance(obj, (list, dict, bytearray)):
@@ -1712,7 +1788,7 @@ def _build_models(I):
     def m_len(x):
         if isinstance(x, (VBytearray, TupObj)):
             return len(x.items)
-        if isinstance(x, (SSeq, SBits)):
+        if isinstance(x, (SSeq, SBits, OpaqueSeq)):
             return x.length
         if isinstance(x, SRepeat):
             return x.length()
